@@ -13,6 +13,35 @@ CLAIMED = {
   note=STATIC_NOTE,
   technique="who-may-call + polynomial-normalised radix/mask/shift agreement on the extraction loops + must-precede on context option stores"),
 }
+
+CLAIMED["C01"] = dict(
+  text="Decides that hash and verify paths of every shipped hasher are wired to the same format and digest function: libpass hashers render through the "
+       "info class their own verify/identify parse with (and base classes never bypass a variant slot with a literal); every verify() in the tree returns "
+       "only a constant-time comparison whose operands are a recomputed digest and the stored one, a delegation, or literal False for disabled / foreign "
+       "hashes; GenericHandler.hash/verify/genhash and the user/encoding context plumbing have the documented dataflow; a str/bytes type-flow analysis from "
+       "every registered handler's digest entry point proves the secret reaches every hash/cipher primitive as bytes, encoded as UTF-8 (or the declared "
+       "encoding); PrefixWrapper wrap/unwrap are inverse and every entry point unwraps before delegating. Not decided: determinism and collision freedom "
+       "of the digests, i.e. the executed round trip and the 'False for every other password' half.",
+  note=STATIC_NOTE,
+  technique="class-hierarchy agreement rules + interprocedural str/bytes type-flow (abstract interpretation) + return-idiom classification")
+CLAIMED["C03"] = dict(
+  text="Decides: every lazily bound backend global that is called is bound on some path and in its loader (def-use, whole tree); every advertised backend "
+       "has a loader installing the implementation of the same name and returning True only afterwards; each OS-crypt path calls safe_crypt with the caller's "
+       "secret, falls back to the builtin on None, validates prefix/length and slices exactly checksum_size characters; the secret handed to bcrypt.hashpw is "
+       "bounded to 72 bytes on every path; safe_crypt maps non-UTF-8 to None, refuses NUL and calls crypt() only under its lock; backend state is written only "
+       "inside set_backend's locked region and dry runs install nothing; ident dispatch chains and scrypt backend tables are exhaustive and argument orders "
+       "agree. Not decided: equality of digests computed by two backends.",
+  note=STATIC_NOTE,
+  technique="def-use on module globals, who-may-write, sibling agreement of loaders/OS paths, symbolic length agreement (polynomial normaliser), path-bounded slice check")
+CLAIMED["C05"] = dict(
+  text="Decides: (a) every length compared against a truncation limit is measured on bytes (str/bytes type flow from each truncating handler's digest "
+       "entry to the comparison); (b) validate_secret(secret) is called on every normally-returning path of hash/verify/genhash of all 76 registered hashers "
+       "(must-call with callee summaries through the MRO); (c) every crypt()-compatible builtin and bcrypt refuse NUL before first use; (d) the truncation "
+       "error is raised only when a new hash is made and with `>`; (e) declared truncate_size equals the bytes the algorithm consumes. Not decided: that "
+       "exactly `limit` bytes influence the digest.",
+  note=STATIC_NOTE,
+  technique="str/bytes type-flow with len() hook + must-call analysis with summaries + sibling guard rule")
+
 NOT_APPLICABLE = {p: "check under construction in this session (will be claimed once its rules are built and validated on the clean tree)"
                   for p in ["C%02d" % i for i in range(1, 21)] if p not in CLAIMED}
 NOTES = ("All checks are static: ./check <ID> parses /repo's working tree on every run (81 units), evaluates the property's rules at every site and "
